@@ -1,5 +1,5 @@
 """Drives the repository's own `lsp` binary over stdio: initialize, open one document, send a
-burst of requests in one write, count the responses that arrive within the timeout."""
+burst of requests back to back, count the responses that arrive within the timeout."""
 import json
 import os
 import select
@@ -26,18 +26,28 @@ def burst(binary, n, cpus=None, timeout=6.0):
         time.sleep(0.3)
         msgs = b"".join(frame({"jsonrpc": "2.0", "id": i, "method": "textDocument/hover", "params": {
             "textDocument": {"uri": "file:///nonexistent-verif/a.td"}, "position": {"line": 1, "character": 8}}}) for i in range(1, n + 1))
-        p.stdin.write(msgs)
-        p.stdin.flush()
     except BrokenPipeError:
         p.kill()
         return -1
+    # write the burst and read the answers concurrently (a client that stops reading while it writes would
+    # fill both pipes and block itself)
+    wfd = p.stdin.fileno()
     fd = p.stdout.fileno()
     os.set_blocking(fd, False)
+    os.set_blocking(wfd, False)
     data = b""
     t0 = time.time()
     got = 0
+    sent = 0
     while time.time() - t0 < timeout:
-        r, _, _ = select.select([fd], [], [], 0.1)
+        r, w, _ = select.select([fd], [wfd] if sent < len(msgs) else [], [], 0.1)
+        if w:
+            try:
+                sent += os.write(wfd, msgs[sent:sent + (1 << 16)])
+            except BlockingIOError:
+                pass
+            except BrokenPipeError:
+                break
         if r:
             try:
                 chunk = os.read(fd, 1 << 20)
